@@ -194,6 +194,63 @@ func ruleShrinkSafe(c *Ctx) {
 		name := fnName(fn)
 		d := fi.lin(k.Delta)
 		blk := k.Copy.Block()
+		// the call sites agree on what the request means: either every caller passes the total length wanted
+		// (len(Data) + needed) or every caller passes the additional bytes only; a single call site of the other
+		// kind asks for the wrong amount (siblings: Write, WriteByte, WriteMatch, WriteBlock twice)
+		reqForm := ""
+		if len(fn.Params) == 2 {
+			withLen, without := 0, 0
+			var odd []string
+			type site struct {
+				pos  token.Pos
+				with bool
+				s    string
+			}
+			var sites []site
+			for _, caller := range c.allFuncs {
+				if caller.Pkg != c.lz || caller.Blocks == nil {
+					continue
+				}
+				cfi := c.info(caller)
+				for _, b := range caller.Blocks {
+					for _, in := range b.Instrs {
+						call, ok := in.(*ssa.Call)
+						if !ok || call.Call.StaticCallee() != fn || len(call.Call.Args) != 2 {
+							continue
+						}
+						l := cfi.lin(call.Call.Args[1])
+						has := false
+						for a, co := range l.t {
+							if co == 1 && strings.HasPrefix(a, "len(") && strings.Contains(a, ".Data") {
+								has = true
+							}
+						}
+						sites = append(sites, site{call.Pos(), has, fnName(caller) + ": " + l.String()})
+						if has {
+							withLen++
+						} else {
+							without++
+						}
+					}
+				}
+			}
+			if withLen > 0 && without > 0 {
+				minority := withLen < without
+				for _, st := range sites {
+					if st.with == minority {
+						odd = append(odd, c.pos(st.pos)+" "+st.s)
+					}
+				}
+			}
+			switch {
+			case withLen > 0 && without == 0:
+				reqForm = "total"
+			case without > 0 && withLen == 0:
+				reqForm = "extra"
+			}
+			c.check(len(odd) == 0 && withLen+without > 0, name+":request-agrees", fn.Pos(), fmt.Sprintf("all %d call sites pass the request in the same form", withLen+without),
+				fmt.Sprintf("the call sites disagree on the request passed to the compaction function (%d include len(Data), %d do not); the odd ones ask for the wrong amount of room: %v", withLen, without, odd))
+		}
 		// δ ≤ R
 		okR := false
 		for _, r := range fi.atomsWithSuffix(".R") {
@@ -205,6 +262,7 @@ func ruleShrinkSafe(c *Ctx) {
 			"discarded count δ = "+d.String()+" is not bounded by the read position R: unread bytes can be dropped")
 		// δ ≤ doz(len(Data), WindowSize)
 		okW := false
+		var dozCall *ssa.Call
 		for _, b := range fn.Blocks {
 			for _, in := range b.Instrs {
 				call, ok := in.(*ssa.Call)
@@ -225,11 +283,44 @@ func ruleShrinkSafe(c *Ctx) {
 				}
 				if isW && isLen && fi.proveLE(d.sub(fi.lin(call)), blk, nil) {
 					okW = true
+					dozCall = call
 				}
 			}
 		}
 		c.check(okW, name+":delta≤len-W", k.Copy.Pos(), "δ ≤ doz(len(Data), WindowSize): the last WindowSize bytes stay addressable",
 			"discarded count δ is not bounded by doz(len(Data), WindowSize): window history can be dropped")
+		// … and δ is no smaller than that: δ ≥ R or δ ≥ doz(len(Data), WindowSize) on every way it gets its value. The
+		// retry templates count on one complete drain (R = len(Data)) leaving at most WindowSize bytes behind
+		if dozCall != nil {
+			type dway struct {
+				v     ssa.Value
+				conds []Cond
+			}
+			var dways []dway
+			if ph, isPhi := k.Delta.(*ssa.Phi); isPhi {
+				for i, e := range ph.Edges {
+					p := ph.Block().Preds[i]
+					dways = append(dways, dway{e, append(append([]Cond{}, fi.condsAt(p)...), fi.edgeConds(p, ph.Block())...)})
+				}
+			} else {
+				dways = append(dways, dway{k.Delta, fi.condsAt(blk)})
+			}
+			okLow := true
+			for _, w := range dways {
+				lv := fi.lin(w.v)
+				good := fi.proveLE0(fi.lin(dozCall).sub(lv), w.conds, nil, map[string]bool{}, 0)
+				for _, r := range fi.atomsWithSuffix(".R") {
+					if !strings.Contains(r, "@") && fi.proveLE0(linAtom(r).sub(lv), w.conds, nil, map[string]bool{}, 0) {
+						good = true
+					}
+				}
+				if !good {
+					okLow = false
+				}
+			}
+			c.check(okLow, name+":delta-exact", k.Copy.Pos(), "δ ≥ min(R, doz(len(Data), WindowSize)): everything that was read and lies outside the window is released",
+				"the discarded count δ can be smaller than min(R, doz(len(Data), WindowSize)): after a complete drain more than WindowSize bytes stay in the buffer, and a request that Decoder.Write clamped to BufferSize − WindowSize never fits (the retry loop spins)")
+		}
 		// R -= δ, Data = Data[:copied], Off untouched, return δ
 		okRs, okData, offTouched := false, false, false
 		for _, b := range fn.Blocks {
@@ -275,15 +366,27 @@ func ruleShrinkSafe(c *Ctx) {
 		}
 		for _, b := range fn.Blocks {
 			r, ok := b.Instrs[len(b.Instrs)-1].(*ssa.Return)
-			if !ok || len(r.Results) != 1 {
+			if !ok {
+				continue
+			}
+			// the discarded count is the (first) integer result; further results (a "fits now" flag) are
+			// the callers' business (R-STALELEN, R-CAPERR look at what they do with them)
+			ri := -1
+			for i, rv := range r.Results {
+				if bt, isB := rv.Type().Underlying().(*types.Basic); isB && bt.Info()&types.IsInteger != 0 {
+					ri = i
+					break
+				}
+			}
+			if ri < 0 {
 				continue
 			}
 			var ways []way
 			switch {
 			case blk == b || blk.Dominates(b):
-				ways = append(ways, way{true, fi.condsAt(b), fi.lin(r.Results[0])})
+				ways = append(ways, way{true, fi.condsAt(b), fi.lin(r.Results[ri])})
 			case !fi.instrReaches(k.Copy, r):
-				ways = append(ways, way{false, fi.condsAt(b), fi.lin(r.Results[0])})
+				ways = append(ways, way{false, fi.condsAt(b), fi.lin(r.Results[ri])})
 			default:
 				// the return collects both kinds of paths: split at the merge
 				m := b
@@ -291,8 +394,8 @@ func ruleShrinkSafe(c *Ctx) {
 					m = m.Preds[0]
 				}
 				for i, p := range m.Preds {
-					res := fi.lin(r.Results[0])
-					if ph, isPhi := r.Results[0].(*ssa.Phi); isPhi && ph.Block() == m {
+					res := fi.lin(r.Results[ri])
+					if ph, isPhi := r.Results[ri].(*ssa.Phi); isPhi && ph.Block() == m {
 						res = fi.lin(ph.Edges[i])
 					}
 					cs := append(append([]Cond{}, fi.condsAt(b)...), fi.edgeConds(p, m)...)
@@ -317,17 +420,34 @@ func ruleShrinkSafe(c *Ctx) {
 				fits := false
 				// the request: the total size handed in, or the extra bytes handed in plus len(Data)
 				var reqs []Lin
+				// (which of the two the callers mean is read off the call sites: a bare parameter that stands
+				// for the additional bytes says nothing about what fits)
 				if len(fn.Params) >= 2 {
-					reqs = append(reqs, fi.lin(fn.Params[1]))
-					for _, dl := range fi.atomsWithSuffix(".Data)") {
-						if strings.HasPrefix(dl, "len(") && !strings.Contains(dl, "@") {
-							reqs = append(reqs, fi.lin(fn.Params[1]).add(linAtom(dl)))
+					if reqForm == "total" {
+						reqs = append(reqs, fi.lin(fn.Params[1]))
+					}
+					for _, lb := range fn.Blocks {
+						for _, lin := range lb.Instrs {
+							if ld, isLd := lin.(*ssa.UnOp); isLd && ld.Op == token.MUL {
+								if p, okp := recvPath(fn, ld.X); okp && p == "Data" && fi.version(ld) == "" {
+									reqs = append(reqs, fi.lin(fn.Params[1]).add(fi.lenOf(ld)))
+								}
+							}
 						}
 					}
 				}
 				for _, rq := range reqs {
 					for _, bs := range fi.atomsWithSuffix(".BufferSize") {
 						if fi.proveLE0(rq.sub(linAtom(bs)), w.conds, nil, map[string]bool{}, 0) {
+							fits = true
+						}
+					}
+					// … or the BufferSize current at this return (read again after the adoption of cap(Data))
+					for _, ld := range fi.currentLoads(r, func(f *types.Var, ld *ssa.UnOp) bool {
+						p, okp := recvPath(fn, ld.X)
+						return okp && f.Name() == "BufferSize" && lastField(p) == "BufferSize"
+					}) {
+						if fi.proveLE0(rq.sub(fi.lin(ld)), w.conds, nil, map[string]bool{}, 0) {
 							fits = true
 						}
 					}
@@ -356,6 +476,9 @@ func ruleShrinkSafe(c *Ctx) {
 					definedHere = false
 				}
 				if !fits && !(definedHere && fi.proveLE0(d, w.conds, nil, map[string]bool{}, 0)) {
+					if os.Getenv("LZDBG4") != "" {
+						fmt.Fprintf(os.Stderr, "DBG frees-all: block %d reqs=%v conds=%v form=%s\n", b.Index, reqs, factStrings(fi.factsOf(w.conds)), reqForm)
+					}
 					okP = false
 				}
 			}
@@ -1543,6 +1666,12 @@ func (c *Ctx) checkRetry(fi *FuncInfo, rl retryLoop, key string, pos token.Pos) 
 		c.fail(key, pos, "T-RETRY: the loop retries after draining to the writer although the drain may have written nothing without reporting an error (WriteTo passes a short count with a nil error on, and the loop does not test the count): a writer that returns (0, nil) keeps the buffer full and Decoder.%s spins", fn.Name())
 		return
 	}
+	// templates (a) and (b) also read the loop itself: it goes round again either after a successful step that
+	// leaves something to do, or after a refusal and a drain that reported no error — nothing else
+	if why := c.retryEdges(fi, rl); why != "" {
+		c.fail(key, pos, "T-RETRY: %s", why)
+		return
+	}
 	switch callee.Name() {
 	case "WriteByte":
 		// (a) constant-size request and WindowSize < BufferSize by Verify
@@ -1572,6 +1701,231 @@ func (c *Ctx) checkRetry(fi *FuncInfo, rl retryLoop, key string, pos token.Pos) 
 		return
 	}
 	c.fail(key, pos, "T-RETRY: the retry loop around DecoderBuffer.%s has no back-edge progress test and no size clamp: an item larger than the attainable free space makes it spin", callee.Name())
+}
+
+// retryEdges: every back edge of the retry loop is of one of two kinds. A success edge (the inner call's error
+// is nil on it) is taken only with a non-empty remainder (a slice length tested ≠ 0 on the edge): the all-or-
+// nothing step has then consumed a non-empty piece and the remainder is shorter. A refusal edge lies behind the
+// drain call and is taken only when the drain's error is nil. Returns "" or what is wrong.
+func (c *Ctx) retryEdges(fi *FuncInfo, rl retryLoop) string {
+	l := rl.Loop
+	nres := rl.Inner.Call.StaticCallee().Signature.Results().Len()
+	innerErr := map[ssa.Value]bool{}
+	if nres == 1 {
+		innerErr[rl.Inner] = true
+		for _, f := range rl.Firsts {
+			innerErr[f] = true
+		}
+		for changed := true; changed; {
+			changed = false
+			for _, ph := range fi.phis {
+				if innerErr[ph] || len(ph.Edges) == 0 {
+					continue
+				}
+				all := true
+				for _, e := range ph.Edges {
+					if !innerErr[e] && e != ssa.Value(ph) {
+						all = false
+					}
+				}
+				if all {
+					innerErr[ph] = true
+					changed = true
+				}
+			}
+		}
+	} else {
+		innerErr = rl.lastCounts(fi, nres-1)
+	}
+	var drainErr ssa.Value
+	if rl.Drain.Call.Signature().Results().Len() == 1 {
+		drainErr = rl.Drain
+	} else if ex := extractOf(rl.Drain, rl.Drain.Call.Signature().Results().Len()-1); ex != nil {
+		drainErr = ex
+	}
+	// the ways round the loop: per back edge, the conditions of the edge, the loop-top test as it reads for the
+	// value the edge gives to a flag merged in the header, and — where ways merge in front of the back edge, or a
+	// merged boolean stands in a condition — one way per incoming edge
+	type way struct {
+		conds  []Cond
+		from   *ssa.BasicBlock
+		passed map[*ssa.BasicBlock]bool // the blocks this way is known to run through on its way to the back edge
+	}
+	var ways []way
+	var split func(b *ssa.BasicBlock, conds []Cond, depth int, latch *ssa.BasicBlock, passed map[*ssa.BasicBlock]bool)
+	split = func(b *ssa.BasicBlock, conds []Cond, depth int, latch *ssa.BasicBlock, passed map[*ssa.BasicBlock]bool) {
+		passed = copyBlockSet(passed)
+		passed[b] = true
+		// the nearest merge at or above b (inside the loop, behind the inner call)
+		for b != nil && len(b.Preds) == 1 && l.Blocks[b] && b != l.Header && b != rl.Inner.Block() {
+			b = b.Preds[0]
+			passed[b] = true
+		}
+		if b == nil {
+			return
+		}
+		if depth < 4 && len(b.Preds) > 1 && l.Blocks[b] && b != l.Header && b != rl.Inner.Block() {
+			for _, p := range b.Preds {
+				if !l.Blocks[p] {
+					continue
+				}
+				cs := append(append([]Cond{}, conds...), fi.edgeConds(p, b)...)
+				// a merged boolean of b that stands in a condition gets the value of this edge
+				var cs2 []Cond
+				feasible := true
+				for _, cd := range cs {
+					u := unNot(cd)
+					if ph, isPhi := u.V.(*ssa.Phi); isPhi && ph.Block() == b && isBool(ph.Type()) {
+						for pi, pp := range b.Preds {
+							if pp != p {
+								continue
+							}
+							e := ph.Edges[pi]
+							if k, isK := e.(*ssa.Const); isK {
+								if (k.Value != nil && k.Value.String() == "true") != u.True {
+									feasible = false
+								}
+							} else {
+								cs2 = append(cs2, Cond{e, u.True})
+							}
+						}
+						continue
+					}
+					cs2 = append(cs2, cd)
+				}
+				if feasible && !fi.proveLE0(linConst(1), cs2, []Fact{{linConst(0), LE}}, map[string]bool{}, 0) {
+					split(p, cs2, depth+1, latch, passed)
+				}
+			}
+			return
+		}
+		ways = append(ways, way{conds, latch, passed})
+	}
+	for _, la := range l.Latches {
+		conds := append([]Cond{}, fi.edgeConds(la, l.Header)...)
+		if iff, ok := l.Header.Instrs[len(l.Header.Instrs)-1].(*ssa.If); ok {
+			stay := len(l.Header.Succs) == 2 && l.Blocks[l.Header.Succs[0]] && !l.Blocks[l.Header.Succs[1]]
+			leave := len(l.Header.Succs) == 2 && !l.Blocks[l.Header.Succs[0]] && l.Blocks[l.Header.Succs[1]]
+			if stay || leave {
+				u := unNot(Cond{iff.Cond, stay})
+				if ph, isPhi := u.V.(*ssa.Phi); isPhi && ph.Block() == l.Header {
+					for pi, pp := range l.Header.Preds {
+						if pp == la {
+							e := ph.Edges[pi]
+							if k, isK := e.(*ssa.Const); !isK {
+								conds = append(conds, Cond{e, u.True})
+							} else if (k.Value != nil && k.Value.String() == "true") != u.True {
+								conds = nil // this edge leaves the loop at once
+							}
+						}
+					}
+				}
+			}
+		}
+		if conds == nil {
+			continue
+		}
+		split(la, conds, 0, la, nil)
+	}
+	for _, w := range ways {
+		conds := w.conds
+		la := w.from
+		success := false
+		for _, cd := range conds {
+			for e := range innerErr {
+				if isNilCmp(cd, e) == -1 {
+					success = true
+				}
+			}
+		}
+		end := la.Instrs[len(la.Instrs)-1]
+		if success {
+			nonEmpty := false
+			for _, cd := range conds {
+				u := unNot(cd)
+				bo, ok := u.V.(*ssa.BinOp)
+				if !ok {
+					continue
+				}
+				isLen := func(v ssa.Value) bool {
+					call, ok := v.(*ssa.Call)
+					if !ok {
+						return false
+					}
+					bi, ok := call.Call.Value.(*ssa.Builtin)
+					return ok && bi.Name() == "len" && isByteSlice(call.Call.Args[0].Type())
+				}
+				x, y := bo.X, bo.Y
+				op := bo.Op
+				if isLen(y) && isConstZero(x) {
+					x, y = y, x
+					switch op {
+					case token.LSS:
+						op = token.GTR
+					case token.GTR:
+						op = token.LSS
+					case token.LEQ:
+						op = token.GEQ
+					case token.GEQ:
+						op = token.LEQ
+					}
+				}
+				if !isLen(x) || !isConstZero(y) {
+					continue
+				}
+				// len(x) op 0 holds (u.True) or fails
+				switch {
+				case op == token.NEQ && u.True, op == token.EQL && !u.True, op == token.GTR && u.True, op == token.LEQ && !u.True:
+					nonEmpty = true
+				}
+			}
+			// a cursor into the parameter instead of a re-sliced remainder: cursor ≠ len(p)
+			for _, f := range fi.factsOf(conds) {
+				if f.Op != NE && !(f.Op == LE && f.L.c >= 1) {
+					continue
+				}
+				for _, prm := range rl.Fn.Params {
+					if !isByteSlice(prm.Type()) {
+						continue
+					}
+					if co := f.L.t["len("+prm.Name()+")"]; (co == 1 || co == -1) && len(f.L.t) >= 2 {
+						nonEmpty = true
+					}
+				}
+			}
+			if !nonEmpty {
+				return fmt.Sprintf("the loop goes round again after a successful step (back edge from block %d at %s) without a test that something is left to do: with nothing left every further round succeeds trivially and the call never returns", la.Index, c.pos(end.Pos()))
+			}
+			continue
+		}
+		behindDrain := false
+		for pb := range w.passed {
+			if rl.Drain.Block() == pb || rl.Drain.Block().Dominates(pb) {
+				behindDrain = true
+			}
+		}
+		if drainErr == nil || !(behindDrain || rl.Drain.Block() == la || rl.Drain.Block().Dominates(la)) {
+			return fmt.Sprintf("the loop goes round again after a refusal (back edge from block %d at %s) without passing the drain: the buffer stays as full as it was and the call never returns", la.Index, c.pos(end.Pos()))
+		}
+		drained := false
+		for _, cd := range conds {
+			if isNilCmp(cd, drainErr) == -1 {
+				drained = true
+			}
+		}
+		if !drained {
+			return fmt.Sprintf("the loop goes round again (back edge from block %d at %s) although the drain may have failed: the writer's error must end the call", la.Index, c.pos(end.Pos()))
+		}
+	}
+	return ""
+}
+
+func copyBlockSet(m map[*ssa.BasicBlock]bool) map[*ssa.BasicBlock]bool {
+	out := map[*ssa.BasicBlock]bool{}
+	for k, v := range m {
+		out[k] = v
+	}
+	return out
 }
 
 // drainComplete: DecoderBuffer.WriteTo returns a nil error only when the writer took everything that was pending:
@@ -1930,6 +2284,16 @@ func (c *Ctx) errorSubjects(fn *ssa.Function) map[string][]string {
 				}
 			}
 		case *ssa.Call:
+			// an accessor that adds up fields of its value receiver (Seq.Len)
+			if callee := x.Call.StaticCallee(); callee != nil && !x.Call.IsInvoke() {
+				if t, _, ok := c.fieldSum(callee); ok {
+					for f := range t {
+						if f == "LitLen" || f == "MatchLen" {
+							into["sequence"] = true
+						}
+					}
+				}
+			}
 			if bi, ok := x.Call.Value.(*ssa.Builtin); ok && bi.Name() == "len" {
 				if _, p, ok := pathStr(x.Call.Args[0]); ok && lastField(p) == "Literals" {
 					into["literals"] = true
